@@ -12,6 +12,7 @@ import random
 from collections import Counter
 
 from codec import *  # noqa
+import reccorr
 
 PID = 'C05'
 
@@ -89,6 +90,11 @@ def run(tier, seed, t0):
                 failures.append({'class': 'self-delimiting', 'key': '%s %s %s' % (r['type'], r['mode'], r['input']),
                                  'what': '%s: %s %s on %s -> %s [%s]' % (bad, r['mode'], r['type'], r['input'], impl, cfg),
                                  'type': r['type'], 'mode': r['mode'], 'input': r['input'], 'result': impl, 'cfg': cfg})
+        # recursive derived items (Tree, List, Json, Rec) through their finite unfoldings
+        rstats, rdis, rfails = reccorr.rec_hostile_stage(cfg, exe, driver, seed, tier, 'c05')
+        disagreements += rdis
+        failures += rfails
+        reccorr.merge_stats(stats, rstats)
         if not stats['samples']:
             stats['samples'] = [{'type': r['type'], 'mode': r['mode'], 'input': r['input'], 'result': r['impl']} for r in drecs[3:3000:331]]
     stats['kinds'] = dict(kinds)
